@@ -1638,6 +1638,117 @@ static int sch_mpcg1(sess_t *s) {
 	return 0;
 }
 
+/* the G2 and GT forms of the two-party multiplication: same flow as mpcg1 */
+static int sch_mpcg2(sess_t *s) {
+	b3_init();
+	mt_t *tri = mt3[s->sid][0];
+	g2_t *A = mg2[s->sid];
+	static g2_t D[NSESS][4];
+	static int ready = 0;
+	if (!ready) { for (int a = 0; a < NSESS; a++) { for (int j = 0; j < 4; j++) { g2_null(D[a][j]); g2_new(D[a][j]); } } ready = 1; }
+	g2_t *d = D[s->sid];
+	switch (s->phase) {
+		case 0:
+			mpc_mt_gen(tri, ord);
+			g2_rand(A[0]); bn_rand_mod(s->b[0], ord);
+			g2_mul(A[2], A[0], s->b[0]);
+			g2_rand(A[1]); g2_sub(A[0], A[0], A[1]); g2_norm(A[0], A[0]);
+			bn_rand_mod(s->b[1], ord);
+			bn_sub(s->b[0], s->b[0], s->b[1]);
+			if (bn_sign(s->b[0]) == RLC_NEG) bn_add(s->b[0], s->b[0], ord);
+			bn_mod(s->b[0], s->b[0], ord);
+			g2_mul_gen(A[3], tri[0]->b); g2_mul_gen(A[4], tri[1]->b);
+			g2_mul_gen(A[5], tri[0]->c); g2_mul_gen(A[6], tri[1]->c);
+			tri[0]->b2 = &A[3]; tri[1]->b2 = &A[4]; tri[0]->c2 = &A[5]; tri[1]->c2 = &A[6];
+			return 1;
+		case 1: g2_mul_lcl(s->b[2], d[0], s->b[0], A[0], tri[0]); return 1;
+		case 2: g2_mul_lcl(s->b[3], d[1], s->b[1], A[1], tri[1]); return 1;
+		case 3: {
+			int ok = 1;
+			bn_copy(s->b[4], s->b[2]);
+			ok &= xmit_bn(s, "l1", s->b[5], s->b[3], 0);
+			g2_copy(A[7], d[0]);
+			ok &= xmit_g2(s, "d1", d[3], d[1], (int)s->opt[1]);
+			s->flag[0] = ok;
+			return 1;
+		}
+		case 4:
+			if (s->flag[0]) {
+				g2_t q[2], qq[2];
+				bn_t l[2];
+				for (int i = 0; i < 2; i++) { g2_null(q[i]); g2_new(q[i]); g2_null(qq[i]); g2_new(qq[i]); bn_null(l[i]); bn_new(l[i]); }
+				bn_copy(l[0], s->b[4]); bn_copy(l[1], s->b[5]);
+				g2_copy(q[0], A[7]); g2_copy(q[1], d[3]);
+				g2_mul_bct(l, q);
+				g2_mul_mpc(q[0], l[0], q[0], tri[0], 0);
+				bn_copy(l[0], s->b[2]); bn_copy(l[1], s->b[3]);
+				g2_copy(qq[0], d[0]); g2_copy(qq[1], d[1]);
+				g2_mul_bct(l, qq);
+				g2_mul_mpc(q[1], l[1], qq[1], tri[1], 1);
+				g2_add(q[0], q[0], q[1]); g2_norm(q[0], q[0]);
+				tr_printf("OUT %d match v=%02x\n", s->sid, g2_cmp(q[0], A[2]) == RLC_EQ);
+				for (int i = 0; i < 2; i++) { g2_free(q[i]); g2_free(qq[i]); bn_free(l[i]); }
+			}
+			return 0;
+	}
+	return 0;
+}
+
+static int sch_mpcgt(sess_t *s) {
+	b3_init();
+	mt_t *tri = mt3[s->sid][0];
+	gt_t *A = mgt[s->sid];
+	static gt_t D[NSESS][4];
+	static int ready = 0;
+	if (!ready) { for (int a = 0; a < NSESS; a++) { for (int j = 0; j < 4; j++) { gt_null(D[a][j]); gt_new(D[a][j]); } } ready = 1; }
+	gt_t *d = D[s->sid];
+	switch (s->phase) {
+		case 0:
+			mpc_mt_gen(tri, ord);
+			gt_rand(A[0]); bn_rand_mod(s->b[0], ord);
+			gt_exp(A[2], A[0], s->b[0]);
+			gt_rand(A[1]); gt_inv(A[7], A[1]); gt_mul(A[0], A[0], A[7]);
+			bn_rand_mod(s->b[1], ord);
+			bn_sub(s->b[0], s->b[0], s->b[1]);
+			if (bn_sign(s->b[0]) == RLC_NEG) bn_add(s->b[0], s->b[0], ord);
+			bn_mod(s->b[0], s->b[0], ord);
+			gt_exp_gen(A[3], tri[0]->b); gt_exp_gen(A[4], tri[1]->b);
+			gt_exp_gen(A[5], tri[0]->c); gt_exp_gen(A[6], tri[1]->c);
+			tri[0]->bt = &A[3]; tri[1]->bt = &A[4]; tri[0]->ct = &A[5]; tri[1]->ct = &A[6];
+			return 1;
+		case 1: gt_exp_lcl(s->b[2], d[0], s->b[0], A[0], tri[0]); return 1;
+		case 2: gt_exp_lcl(s->b[3], d[1], s->b[1], A[1], tri[1]); return 1;
+		case 3: {
+			int ok = 1;
+			bn_copy(s->b[4], s->b[2]);
+			ok &= xmit_bn(s, "l1", s->b[5], s->b[3], 0);
+			gt_copy(A[7], d[0]);
+			ok &= xmit_gt(s, "d1", d[3], d[1], 0);
+			s->flag[0] = ok;
+			return 1;
+		}
+		case 4:
+			if (s->flag[0]) {
+				gt_t q[2], qq[2];
+				bn_t l[2];
+				for (int i = 0; i < 2; i++) { gt_null(q[i]); gt_new(q[i]); gt_null(qq[i]); gt_new(qq[i]); bn_null(l[i]); bn_new(l[i]); }
+				bn_copy(l[0], s->b[4]); bn_copy(l[1], s->b[5]);
+				gt_copy(q[0], A[7]); gt_copy(q[1], d[3]);
+				gt_exp_bct(l, q);
+				gt_exp_mpc(q[0], l[0], q[0], tri[0], 0);
+				bn_copy(l[0], s->b[2]); bn_copy(l[1], s->b[3]);
+				gt_copy(qq[0], d[0]); gt_copy(qq[1], d[1]);
+				gt_exp_bct(l, qq);
+				gt_exp_mpc(q[1], l[1], qq[1], tri[1], 1);
+				gt_mul(q[0], q[0], q[1]);
+				tr_printf("OUT %d match v=%02x\n", s->sid, gt_cmp(q[0], A[2]) == RLC_EQ);
+				for (int i = 0; i < 2; i++) { gt_free(q[i]); gt_free(qq[i]); bn_free(l[i]); }
+			}
+			return 0;
+	}
+	return 0;
+}
+
 static int sch_mpcpc(sess_t *s) {
 	b3_init();
 	pt_t *t = pc_tri[s->sid];
@@ -1692,4 +1803,4 @@ static int sch_mpcpc(sess_t *s) {
 	{ "lvpub", sch_pdpub, 1, 0, 0 }, { "pdprv", sch_pdprv, 1, 0, 0 }, { "lvprv", sch_pdprv, 1, 0, 0 }, { "pbpsi", sch_pbpsi, 1, 0, 0 }, \
 	{ "ped", sch_ped, 0, 0, 0 }, { "rsapsi", sch_rsapsi, 0, 0, 0 }, { "shipsi", sch_rsapsi, 0, 0, 0 }, \
 	{ "etrs", sch_etrs, 0, 0, 0 }, { "smlers", sch_smlers, 0, 0, 0 }, { "cmlhs", sch_cmlhs, 1, 0, 0 }, { "mpss", sch_mpss, 1, 0, 0 }, { "mpsb", sch_mpsb, 1, 0, 0 }, \
-	{ "shpe", sch_shpe, 0, 0, 0 }, { "mpcg1", sch_mpcg1, 1, 0, 0 }, { "mpcpc", sch_mpcpc, 1, 0, 0 },
+	{ "shpe", sch_shpe, 0, 0, 0 }, { "mpcg1", sch_mpcg1, 1, 0, 0 }, { "mpcpc", sch_mpcpc, 1, 0, 0 }, { "mpcg2", sch_mpcg2, 1, 0, 0 }, { "mpcgt", sch_mpcgt, 1, 0, 0 },
